@@ -476,3 +476,44 @@ func SplitLenient(first uint8, b []byte) ([]RawPayload, error) {
 	}
 	return out, nil
 }
+
+// ProtectOuter is Protect for a datagram whose outer chain carries further (raw) payloads in front of the SK payload:
+// header | front payloads | SK{IV | E(inner|pad|padlen) | ICV}, with the ICV over everything before it.
+func ProtectOuter(s Suite, k DirKeys, hdr28 []byte, front []RawPayload, firstInner uint8, inner, iv []byte, padLen int, padOctets []byte) ([]byte, error) {
+	if len(hdr28) != 28 || len(iv) != 16 || len(padOctets) != padLen || (len(inner)+padLen+1)%16 != 0 {
+		return nil, errors.New("ref: ProtectOuter arguments")
+	}
+	pt := append(append(append([]byte(nil), inner...), padOctets...), byte(padLen))
+	ct, err := CBCEncrypt(k.E, iv, pt)
+	if err != nil {
+		return nil, err
+	}
+	w := append([]byte(nil), hdr28...)
+	w[16] = 46
+	if len(front) > 0 {
+		w[16] = front[0].Type
+	}
+	for i, p := range front {
+		next := uint8(46)
+		if i+1 < len(front) {
+			next = front[i+1].Type
+		}
+		l := 4 + len(p.Body)
+		if l > 0xffff {
+			return nil, errors.New("ref: front payload too long")
+		}
+		w = append(w, next, p.Flags, byte(l>>8), byte(l))
+		w = append(w, p.Body...)
+	}
+	skLen := 4 + 16 + len(ct) + s.Integ.OutLen
+	if skLen > 0xffff {
+		return nil, errors.New("ref: SK payload exceeds 16 bits")
+	}
+	w = append(w, firstInner, 0, byte(skLen>>8), byte(skLen))
+	w = append(w, iv...)
+	w = append(w, ct...)
+	total := len(w) + s.Integ.OutLen
+	w[24], w[25], w[26], w[27] = byte(total>>24), byte(total>>16), byte(total>>8), byte(total)
+	mac := HMAC(s.Integ.Hash, k.A, w)[:s.Integ.OutLen]
+	return append(w, mac...), nil
+}
